@@ -42,7 +42,7 @@ Print Assumptions tie_vendor_depends.
 Theorem tie_vendor_assert_calls :
   filter (fun e => is_third_party_fn (fst e)) assert_calls =
   [ (lit "operations.third_party.juniper.rpc.Commit.request"%string, [s_k_confirmed]);
-    (lit "operations.third_party.sros.rpc.Commit.request"%string, [s_k_confirmed]) ].
+    (lit "operations.third_party.sros.rpc.Commit.request"%string, [s_k_confirmed; s_k_confirmed]) ].
 Proof. tie. Qed.
 Print Assumptions tie_vendor_assert_calls.
 
